@@ -34,7 +34,8 @@ def coord(draw):
     s = draw(st.sampled_from([1.0, 2.0, 5.0, 3.3])) * 10.0**e
     if cls in ("lin", "touch", "neg"):
         W = s
-        c = draw(st.sampled_from([0.0, 0.0, 0.5, -3.0, 40.0, -1e3, 1e4])) * W
+        # (boxes far from the origin relative to their width: up to 1e6 widths away one ulp of x is still < 1e-9 of the width)
+        c = draw(st.sampled_from([0.0, 0.0, 0.5, -3.0, 40.0, -1e3, 1e4, 3e5, -1e6])) * W
         if cls == "neg":
             c = -abs(c) - 2 * W
         lb, ub = c - W / 2, c + W / 2
@@ -180,10 +181,15 @@ def check_case(case):
         return v, labs, False, evals
     # (c) plausible bounds map to -1 / +1
     tp, tq = np.asarray(vt.plb).ravel(), np.asarray(vt.pub).ravel()
-    if not (np.allclose(tp, -1.0, atol=1e-9, rtol=0) and np.allclose(tq, 1.0, atol=1e-9, rtol=0)):
+    # "-1 and +1" up to 1e-9, plus the rounding of the centre itself for plausible boxes that are narrow relative to their
+    # distance from the origin (one ulp of the centre, in units of the half-width)
+    with np.errstate(all="ignore"):
+        ptol = 1e-9 + np.array([0.0 if lg else 8 * np.finfo(float).eps * abs(0.5 * (c["plb"] + c["pub"])) / (0.5 * (c["pub"] - c["plb"]))
+                                for c, lg in zip(coords, islog)])
+    if not (np.all(np.abs(tp + 1.0) <= ptol) and np.all(np.abs(tq - 1.0) <= ptol)):
         v.append(viol("c:plausible-attributes", f"plb attr={tp.tolist()} pub attr={tq.tolist()}"))
     dplb, dpub = vt(plb.copy()).ravel(), vt(pub.copy()).ravel()
-    if not (np.allclose(dplb, -1.0, atol=1e-9, rtol=0) and np.allclose(dpub, 1.0, atol=1e-9, rtol=0)):
+    if not (np.all(np.abs(dplb + 1.0) <= ptol) and np.all(np.abs(dpub - 1.0) <= ptol)):
         v.append(viol("c:plausible-map", f"dir(plb)={dplb.tolist()} dir(pub)={dpub.tolist()} coords={coords}"))
     tlb, tub = np.asarray(vt.lb).ravel(), np.asarray(vt.ub).ravel()
     X = np.array([[make_point(coords[i], k, t, n, islog[i]) for i, (k, t, n) in enumerate(p)] for p in case["pts"]], dtype=float)
